@@ -97,10 +97,17 @@ func (j *JsonConverter) importInterface(fullType *FullType) error {
 		return err
 	}
 
-	j.doc.ImportInterfaceTypeDefinition(
+	iRefs := make([]int, len(fullType.Interfaces))
+	for i := range iRefs {
+		iRefs[i] = j.importType(fullType.Interfaces[i])
+	}
+
+	j.doc.ImportInterfaceTypeDefinitionWithDirectives(
 		fullType.Name,
 		fullType.Description,
-		fieldRefs)
+		fieldRefs,
+		iRefs,
+		nil)
 
 	return nil
 }
